@@ -570,6 +570,10 @@ def synthesize(update_working_block=True, merge_io_vectors=True, block=None):
         out_mems = block_out.mem_map  # dictionary: PreSynth Map -> PostSynth Map
         for net in block_in.logic:
             _decompose(net, wirevector_map, out_mems, block_out)
+        # key mem_map by the memories of the block the user passed in, not by the internal copy
+        for orig_mem, copied_mem in block_in.mem_map.items():
+            if copied_mem in out_mems:
+                out_mems[orig_mem] = out_mems.pop(copied_mem)
 
     if update_working_block:
         set_working_block(block_out, no_sanity_check=True)
